@@ -1329,7 +1329,7 @@ VALUE_MODELS += [
     (R(r"^<" + ITER_T + r" as Iterator>::(filter|map|filter_map|map_while|take_while|skip_while|inspect|flat_map|chain|take|skip|cloned|copied|flatten|rev|enumerate|zip|by_ref|fuse)(::<.*>)?$"), m_lazy_adapt),
     (R(r"^<" + ITER_T + r" as IntoIterator>::into_iter$"), m_into_iter_id),
     (R(r"^<" + ITER_T + r" as DoubleEndedIterator>::rev$"), m_lazy_adapt),
-    (R(r"^(std|core)::iter::once::<.*>$"), m_iter_once),
+    (R(r"^((std|core)::iter::)?once::<.*>$"), m_iter_once),
     (R(r"^<" + ITER_T + r" as Iterator>::next$"), m_lazy_next),
     (R(r"^<" + ITER_T + r" as Iterator>::(count|last|nth|fold|for_each|find|find_map|position|sum|min|max|all|any)(::<.*>)?$"), m_lazy_consume),
     (R(r"^<" + ITER_T + r" as Iterator>::collect::<.*>$"), m_lazy_collect),
